@@ -66,8 +66,15 @@ class FileSystemArtifactStore(SerializedArtifactStore):
         if len(self._get_glob(node_id)):
             raise ArtifactFileAlreadyExists(f'Artifact file for {node_id} already exists')
 
-        with self._open(Path(self._ensure_dir() / f'{node_id}.{fmt.value}'), 'w', fmt) as file:
-            serializer_factory.from_data_format(fmt).dump(data, file)
+        path = Path(self._ensure_dir() / f'{node_id}.{fmt.value}')
+
+        try:
+            with self._open(path, 'w', fmt) as file:
+                serializer_factory.from_data_format(fmt).dump(data, file)
+        except BaseException:
+            # A failed save must not leave a (partial) artifact behind: the key would look saved
+            path.unlink(missing_ok=True)
+            raise
 
     @dont_use_for_prod
     async def load(self, node_id: NodeId) -> NodeResultT:
